@@ -123,7 +123,7 @@ HARNESSES = [
          unwind=34, malloc_fail=True, timeout=170,
          cases=[dict(id="all", tier="quick")]),
     dict(name="meta_append", file="meta_append.c", label="proved", fp=FP,
-         loops=["sqfs_meta_writer_append"], timeout=300, unwind=34,
+         loops=["sqfs_meta_writer_append"], timeout=900, unwind=34,
          # meta_writer_destroy -> sqfs_drop -> destroy hook is a recursion
          # candidate that crashes the inliner of --apply-loop-contracts
          # ("Numeric exception"); it is not reachable from append
@@ -171,7 +171,7 @@ HARNESSES = [
          nochecks=["--conversion-check"],
          cases=[dict(id="all", tier="quick")]),
     dict(name="xattr_idtable", file="xattr_idtable.c",
-         label="bounded(sets in {1,2,511,512,513,1024,1025})", timeout=900,
+         label="bounded(sets in {1,2,511,512,513,1024,1025})", timeout=2400,
          include_dirs=["lib/sqfs/src/xattr"], object_bits=12, weight=8,
          cases=[dict(id="n%d_g%d" % (n, g), defines={"NSETS": n, "GROW": g},
                      unwind=n + 2,
@@ -207,12 +207,12 @@ HARNESSES = [
                [dict(id="blk3000_s24", defines={"BLK": 3000, "SIZEBITS": 24},
                      tier="thorough",
                      label="bounded(devblksize = 3000, image < 2^24)")]),
-    dict(name="dir_run", file="dir_run.c", label="proved", timeout=1200,
+    dict(name="dir_run", file="dir_run.c", label="proved", timeout=3000,
          nochecks=["--conversion-check"], weight=20,
          cases=[dict(id="n257", defines={"DR_N": 257}, unwind=258, tier="quick",
                      flags=["--max-field-sensitivity-array-size", "300"]),
                 dict(id="n257_wit", defines={"DR_N": 257, "DR_WIT": None},
-                     unwind=258, tier="thorough", timeout=2400,
+                     unwind=258, tier="thorough", timeout=4000,
                      flags=["--max-field-sensitivity-array-size", "300"]),
                 dict(id="blk_n8", defines={"DR_N": 8, "DR_BLK": None, "DR_WIT": None},
                      unwind=10, tier="quick", label="bounded(list<=8)", weight=2),
